@@ -27,6 +27,7 @@ import (
 	"time"
 
 	sf "git.torproject.org/pluggable-transports/snowflake.git/v2/client/lib"
+	"github.com/gorilla/websocket"
 	"github.com/pion/stun"
 	"pgregory.net/rapid"
 	"verif.local/vstat"
@@ -87,6 +88,63 @@ type relayFwd struct {
 	holes    map[net.Conn]*int32
 	holeNext int32 // this many of the next accepted connections are blackholes from the start
 	onAccept atomic.Value // func(): called once, synchronously, when the next relay connection arrives (before a byte is forwarded)
+}
+
+// wsFrag is an optional second hop behind the TCP forwarder: a WebSocket reverse proxy (as a bridge
+// operator may run in front of the server) that re-fragments every message into frames of at most
+// ~300 bytes. Message boundaries and frame sizes carry no meaning on a carrier; code that takes one
+// Read for one packet is exposed by it.
+type wsFrag struct {
+	ln     net.Listener
+	target atomic.Value // string host:port
+}
+
+func startWSFrag() (*wsFrag, error) {
+	ln, err := net.Listen("tcp", "127.0.0.1:0")
+	if err != nil {
+		return nil, err
+	}
+	f := &wsFrag{ln: ln}
+	up := websocket.Upgrader{ReadBufferSize: 4096, WriteBufferSize: 300, CheckOrigin: func(*http.Request) bool { return true }}
+	srv := &http.Server{Handler: http.HandlerFunc(func(w http.ResponseWriter, req *http.Request) {
+		t, _ := f.target.Load().(string)
+		d := websocket.Dialer{ReadBufferSize: 4096, WriteBufferSize: 300, HandshakeTimeout: 10 * time.Second}
+		out, _, err := d.Dial("ws://"+t+"/?"+req.URL.RawQuery, nil)
+		if err != nil {
+			http.Error(w, "bad gateway", 502)
+			return
+		}
+		in, err := up.Upgrade(w, req, nil)
+		if err != nil {
+			out.Close()
+			return
+		}
+		cp := func(dst, src *websocket.Conn) {
+			defer dst.Close()
+			defer src.Close()
+			buf := make([]byte, 200)
+			for {
+				mt, r, err := src.NextReader()
+				if err != nil {
+					return
+				}
+				wr, err := dst.NextWriter(mt)
+				if err != nil {
+					return
+				}
+				if _, err := io.CopyBuffer(wr, r, buf); err != nil {
+					return
+				}
+				if wr.Close() != nil {
+					return
+				}
+			}
+		}
+		go cp(out, in)
+		cp(in, out)
+	})}
+	go srv.Serve(ln)
+	return f, nil
 }
 
 func startRelay(target string) (*relayFwd, error) {
@@ -202,6 +260,7 @@ type env struct {
 	bin       string
 	stun      string
 	relay     *relayFwd
+	frag      *wsFrag
 	brokerURL string // through the reverse proxy
 	broker    *exec.Cmd
 	loseNext  int32 // client poll responses to drop
@@ -271,6 +330,9 @@ func setup(r *rig.Rig) (*env, error) {
 		return nil, err
 	}
 	if e.relay, err = startRelay(r.Addr); err != nil {
+		return nil, err
+	}
+	if e.frag, err = startWSFrag(); err != nil {
 		return nil, err
 	}
 	// broker
@@ -451,10 +513,21 @@ type binConn struct {
 func (b *binConn) Close() error {
 	err := b.Conn.Close()
 	b.once.Do(func() {
+		b.cmd.Process.Signal(syscall.SIGCONT)
 		b.cmd.Process.Signal(syscall.SIGTERM)
 		time.AfterFunc(5*time.Second, func() { b.cmd.Process.Kill() })
 	})
 	return err
+}
+
+// setRelayTarget: proxies -> TCP forwarder (faults) -> [re-fragmenting WebSocket reverse proxy ->] server
+func (e *env) setRelayTarget(server string, frag bool) {
+	if frag {
+		e.frag.target.Store(server)
+		e.relay.target.Store(e.frag.ln.Addr().String())
+	} else {
+		e.relay.target.Store(server)
+	}
 }
 
 func (e *env) startProxy() *exec.Cmd {
@@ -515,7 +588,7 @@ func (e *env) killAllProxies() {
 
 type fault struct {
 	AtMs   int    `json:"at_ms"`  // after the stream was opened
-	Kind   string `json:"kind"`   // kill | term | freeze | cutrelay | resetrelay | blackhole | loseanswer | delayanswer | newproxy
+	Kind   string `json:"kind"`   // kill | term | freeze | cutrelay | resetrelay | blackhole | loseanswer | delayanswer | newproxy | freezeclient
 	Proxy  int    `json:"proxy"`  // index among live proxies (mod)
 	DurMs  int    `json:"dur_ms,omitempty"`
 }
@@ -527,6 +600,7 @@ type sysCase struct {
 	Faults   []fault     `json:"faults"`
 	PreFault string      `json:"prefault,omitempty"` // loseanswer | delayanswer | "" : applied to the very first rendezvous; blackholefirst: the first relay connection of the case never forwards anything
 	AllBin   bool        `json:"allbin,omitempty"`   // the client and the server are the real BINARIES too (SOCKS port, ORPort)
+	Frag     bool        `json:"frag,omitempty"`     // a re-fragmenting WebSocket reverse proxy sits in front of the server
 }
 
 var theEnv *env
@@ -700,7 +774,7 @@ func runSysOnce(_ *testing.T, c sysCase, stall time.Duration) error {
 		if err := e.startServerBinary(r); err != nil {
 			return fmt.Errorf("harness: server binary: %v", err)
 		}
-		e.relay.target.Store(e.serverAddr)
+		e.setRelayTarget(e.serverAddr, c.Frag)
 		e.relay.cutAll(false)
 		if c.PreFault == "blackholefirst" {
 			atomic.StoreInt32(&e.relay.holeNext, 1)
@@ -711,7 +785,7 @@ func runSysOnce(_ *testing.T, c sysCase, stall time.Duration) error {
 		}
 		conn = bc
 	} else {
-		e.relay.target.Store(e.rigAddr)
+		e.setRelayTarget(e.rigAddr, c.Frag)
 		if c.PreFault == "blackholefirst" {
 			atomic.StoreInt32(&e.relay.holeNext, 1)
 		}
@@ -753,6 +827,14 @@ func runSysOnce(_ *testing.T, c sysCase, stall time.Duration) error {
 					p.Process.Signal(syscall.SIGSTOP)
 					d := time.Duration(f.DurMs) * time.Millisecond
 					time.AfterFunc(d, func() { p.Process.Signal(syscall.SIGCONT) })
+				}
+			case "freezeclient":
+				// all-binaries mode only: the client process is stopped for a while (a suspended laptop);
+				// the proxy's client-side carrier makes no progress while the bridge keeps sending
+				if bc, ok := conn.(*binConn); ok && bc.cmd.Process != nil {
+					proc := bc.cmd.Process
+					proc.Signal(syscall.SIGSTOP)
+					time.AfterFunc(time.Duration(f.DurMs)*time.Millisecond, func() { proc.Signal(syscall.SIGCONT) })
 				}
 			case "cutrelay":
 				e.relay.cutAll(false)
@@ -855,16 +937,34 @@ func TestVerifC01System(t *testing.T) {
 		}
 		c.PreFault = rapid.SampledFrom([]string{"", "", "loseanswer", "delayanswer", "blackholefirst", "freezefirst"}).Draw(rt, "prefault")
 		c.AllBin = rapid.Bool().Draw(rt, "allbin")
+		c.Frag = rapid.IntRange(0, 2).Draw(rt, "frag") == 0
 		nf := rapid.IntRange(0, 3).Draw(rt, "nfaults")
+		if sysPurpose == "" && rapid.IntRange(0, 9).Draw(rt, "downlinkstall") == 0 {
+			// scenario family "downlink stall": a multi-MiB download through all four binaries while the
+			// client process is stopped for longer than any buffer between bridge and client can absorb
+			c.AllBin, c.PreFault, nf = true, "", rapid.IntRange(0, 1).Draw(rt, "extrafaults")
+			c.S.DownSize = int64(rapid.SampledFrom([]int{2 << 20, 6 << 20}).Draw(rt, "stalldown"))
+			c.Faults = append(c.Faults, fault{AtMs: rapid.SampledFrom([]int{300, 1500}).Draw(rt, "stallat"), Kind: "freezeclient", DurMs: rapid.SampledFrom([]int{7000, 12000}).Draw(rt, "stalldur")})
+		}
 		at := 0
+		if len(c.Faults) > 0 {
+			at = c.Faults[0].AtMs
+		}
 		for i := 0; i < nf; i++ {
 			at += rapid.SampledFrom([]int{0, 50, 300, 1500, 5000}).Draw(rt, "gap")
-			f := fault{AtMs: at, Kind: rapid.SampledFrom([]string{"kill", "kill", "term", "freeze", "cutrelay", "resetrelay", "blackhole", "loseanswer", "delayanswer", "newproxy"}).Draw(rt, "kind"), Proxy: rapid.IntRange(0, 3).Draw(rt, "which")}
+			kinds := []string{"kill", "kill", "term", "freeze", "cutrelay", "resetrelay", "blackhole", "loseanswer", "delayanswer", "newproxy"}
+			if c.AllBin {
+				kinds = append(kinds, "freezeclient", "freezeclient") // only a client that is a process of its own can be stopped
+			}
+			f := fault{AtMs: at, Kind: rapid.SampledFrom(kinds).Draw(rt, "kind"), Proxy: rapid.IntRange(0, 3).Draw(rt, "which")}
 			if f.Kind == "freeze" {
 				f.DurMs = rapid.SampledFrom([]int{500, 3000, 25000}).Draw(rt, "freeze")
 			}
 			if f.Kind == "delayanswer" {
 				f.DurMs = rapid.SampledFrom([]int{1000, 5000, 12000}).Draw(rt, "delay")
+			}
+			if f.Kind == "freezeclient" {
+				f.DurMs = rapid.SampledFrom([]int{2000, 7000, 12000}).Draw(rt, "clientfreeze")
 			}
 			c.Faults = append(c.Faults, f)
 		}
@@ -874,6 +974,9 @@ func TestVerifC01System(t *testing.T) {
 		}
 		if c.PreFault != "" {
 			labels = append(labels, "first rendezvous: "+c.PreFault)
+		}
+		if c.Frag {
+			labels = append(labels, "re-fragmenting WebSocket reverse proxy in front of the server")
 		}
 		if c.AllBin {
 			labels = append(labels, "all four binaries (SOCKS port to ORPort)")
